@@ -68,9 +68,21 @@ def obligations_of(text):
     return obs
 
 
+def _in_file(span, path):
+    """the span itself if it lies in the generated file, else the macro call site in that file (a failed
+    `assert!`/`panic!` is reported at core's macro definition with the call site in `expansion`)"""
+    seen = 0
+    while span is not None and seen < 16:
+        if span.get('file_name') == path:
+            return span
+        span = (span.get('expansion') or {}).get('span')
+        seen += 1
+    return None
+
+
 def run_verus(name, text, extra_args=(), timeout=900, rlimit=None):
     """Verify `text` (written to build/verus/<name>.rs).  Result is cached on the text hash."""
-    key = 'verus-' + sha(text + verus_version() + ' '.join(extra_args))[:40]
+    key = 'verus-' + sha('r2' + text + verus_version() + ' '.join(extra_args))[:40]   # r<n>: revision of the diagnostic attribution below
     res = cache_get(key)
     d = os.path.join(BUILD, 'verus')
     os.makedirs(d, exist_ok=True)
@@ -120,7 +132,8 @@ def run_verus(name, text, extra_args=(), timeout=900, rlimit=None):
         msg = dg.get('message', '')
         if msg.startswith('aborting due to'):
             continue
-        spans = dg.get('spans', [])
+        spans = [_in_file(s, path) for s in dg.get('spans', [])]
+        spans = [s for s in spans if s is not None]
         cand = [s for s in spans if not (s.get('label') or '').startswith('failed')] or spans
         ob = None
         for s in cand:
